@@ -188,7 +188,7 @@ CONSTS = {"builtins": _builtins, "inf": math.inf, "math.inf": math.inf, "math.na
           "sys.float_info.max": sys.float_info.max, "sys.float_info.epsilon": sys.float_info.epsilon, "sys.maxsize": sys.maxsize}
 STR_METHODS = {"startswith", "endswith", "lstrip", "rstrip", "strip", "lower", "upper", "split", "rpartition", "partition", "replace", "join",
                "removeprefix", "removesuffix", "decode", "encode", "isdigit", "format", "count", "find", "is_integer", "real", "imag", "hex", "bit_length",
-               "conjugate", "as_integer_ratio", "get", "keys", "values", "items", "index", "copy", "union", "intersection"}
+               "conjugate", "as_integer_ratio", "get", "keys", "values", "items", "index", "copy", "union", "intersection", "issubset", "issuperset", "difference"}
 
 _BIN = {
     ast.Add: lambda a, b: a + b, ast.Sub: lambda a, b: a - b, ast.Mult: lambda a, b: a * b, ast.Div: lambda a, b: a / b,
@@ -524,7 +524,8 @@ class Interp:
                 return fv(*args, **kwargs)
         raise Undecided(f"call `{name}`")
 
-    def instantiate(self, name, mro, args, kwargs):
+    def instantiate(self, name, mro, args, kwargs, init=True):
+        """init=False binds methods, properties and class-level fields but does not run __init__ (the caller sets the fields)."""
         obj = Obj(name, classes=[c.name for c, _m in mro])
         obj.mro = mro
         for cdef, cmod in reversed(mro):
@@ -548,6 +549,9 @@ class Interp:
                         obj.fields[st.target.id] = self.ev(st.value, {}, cmod)
                     except Undecided:
                         pass
+        if not init:
+            obj.fields.update(kwargs)
+            return obj
         if "__init__" in obj.methods:
             obj.methods["__init__"](*args, **kwargs)
         else:
